@@ -168,7 +168,7 @@ TIERS = {
         (2, False, [1, 2, 3, 14], "func", 5), (2, True, [1, 2, 3, 5, 6], "func", 4),
         (1, False, [1, 4, 9, 13], "func", 5), (None, False, [5, 6, 7, 8, 12, 13], "func", 4),
         (0, False, [1, 2, 17], "func", 4), (-1, True, [1, 14], "func", 4), (2, False, [1, 17, 14], "func", 4), (None, True, [1, 17], "method", 3),
-        (3, False, [10, 11, 12, 16, 5], "func", 4), (3, True, [10, 16, 12, 11], "func", 4), (2, False, [1, 2, 14], "method", 4),
+        (3, False, [10, 11, 12, 16, 5], "func", 4), (3, True, [10, 16, 12, 11], "func", 4), (2, False, [1, 2, 14], "method", 4), (2, False, [1, 12, 10], "method", 4),
         (128, False, [1, 2, 3, 14, 15], "bare", 4), (None, False, [1, 2, 3, 13], "cache", 4), (128, True, [1, 2, 3, 5], "direct", 4),
         (2, False, [1, 14], "classmethod", 4), (2, True, [1, 2], "staticmethod", 4),
     ],
@@ -178,7 +178,7 @@ TIERS = {
         (None, False, [5, 6, 7, 8, 12, 1, 2], "func", 5), (None, True, [1, 2, 3, 7, 8, 10, 16], "func", 5),
         (0, False, [1, 2, 3, 17], "func", 5), (-1, True, [1, 14, 2], "func", 5), (2, False, [1, 17, 14, 2], "func", 5), (None, True, [1, 17, 2], "method", 4), (5, False, list(range(1, 17)), "func", 4),
         (3, False, [10, 11, 12, 16, 5, 6], "func", 5), (3, True, [10, 11, 12, 16, 5, 6], "func", 5),
-        (2, False, [1, 2, 14, 15], "method", 5), (2, True, [1, 2, 3], "method", 5),
+        (2, False, [1, 2, 14, 15], "method", 5), (2, False, [1, 12, 10, 5], "method", 5), (2, True, [1, 2, 3], "method", 5),
         (128, False, [1, 2, 3, 14, 15, 4], "bare", 5), (None, False, [1, 2, 3, 4, 9], "cache", 5), (128, True, [1, 2, 3, 5, 6, 14], "direct", 5),
         (128, False, [1, 2, 3, 5], "direct", 4),
         (2, False, [1, 14, 2], "classmethod", 5), (2, True, [1, 2, 14], "staticmethod", 5),
